@@ -1061,6 +1061,11 @@ def c17(tier, rng):
     for a in ['0', '1', '2', '3', '(-2)', '10', '0.5', '"2"', 'nil', '4', '(-1)']:
         for b_ in ['0', '1', '2', '3', '(-1)', '(-2)', '"2"', 'nil', '10']:
             cases.append(prog_case(pre + f'{P} {N["pow"]}({a}, {b_});\n{P} {a} ** {b_};\n{P} {N["pow"]}({a}, {b_}) == {a} ** {b_};\n', 'pow-equals-operator'))
+    # the built-in and the operator must be the same function of the same arguments, whatever the platform's pow gives
+    # (compared through their printed text, so NaN results compare equal too)
+    for a in ['2', '10', '0.5', '(-2)', '1.5', '(-0.5)', '0', '(-0)', '1', '(-1)', '3', '0.001', '(10 ** 300)', '(10 ** 400)', '(-(10 ** 400))', '"2"']:
+        for b_ in ['(-1075)', '(-1074)', '(-1022)', '(-324)', '(-310)', '(-308)', '(-53)', '(-3)', '(-1)', '(-0.5)', '0', '0.5', '1', '2', '3', '53', '308', '309', '1023', '1024', '(10 ** 400)', '(-(10 ** 400))', '(10 ** -300)', '2.5', '"3"']:
+            cases.append(prog_case(pre + f'{P} ("" + {N["pow"]}({a}, {b_})) == ("" + ({a} ** {b_}));\n', 'pow-builtin-vs-operator'))
     # every built-in x 0..4 arguments x kinds
     vals = ['1', '"2"', 'nil', '[1, 2]', '({p: 1})', 'f', '"p"']
     for name in NAT:
@@ -1097,7 +1102,7 @@ def c17(tier, rng):
             xs = [random_double_lit(r) for _ in range(1 + r.below(5))]
             cases.append(prog_case(f'{P} {N["min"]}({", ".join(xs)});\n{P} {N["max"]}([{", ".join(xs)}]);\n', 'random-min-max'))
     rule = (f'abs / round / sqrt on {len(args)} boundary arguments (+-0, +-0.5, +-1.5, +-2.5, 2^52+0.5, huge, Inf, NaN, negative, numeric strings) and every other kind; sin/cos/tan on exactly representable cases and every kind; '
-            f'pow built-in vs ** on 11x9 exact cases; every built-in x 0..4 arguments over 7 kinds; min/max over all permutations of {len(pools)} pools in list and array form plus misuse; {n} seeded random doubles. Non-trivial = all.')
+            f'pow built-in vs ** on 11x9 exact cases and, as one text-equality test each, on 16x25 argument pairs incl. subnormal / overflowing results; every built-in x 0..4 arguments over 7 kinds; min/max over all permutations of {len(pools)} pools in list and array form plus misuse; {n} seeded random doubles. Non-trivial = all.')
     return {'cases': cases, 'rule': rule, 'exhaustive': True, 'oracles': [oracle_c17]}
 
 def oracle_c17(cases):
